@@ -69,69 +69,67 @@ theorem tr_x_of_double (O : FOps F) (L : FLaws O) (A : Bool) (x y : F) (_hx : x 
 
 /-! ### 6. Recover ∘ Compress = id on the points with tr(x) = A
 
-The extra hypothesis `hx1` excludes the one point that the compressed format cannot represent: for
-x = 1 clearing bit 0 gives 0, so (1, y) with tr(y) = 0 is stored as the zero string, which is the code
-of the point (0, √B) (`compress_one_collision` below).  Such a point lies on the curve and has
-tr(x) = A exactly when A = 1 and tr(B) = 0 (`recover_compress_A0`, `recover_compress_trB` discharge
-`hx1` in the other cases). -/
+For x = 1 clearing bit 0 gives 0, so the point (1, y) with tr(y) = 0 would be stored as the zero
+string, the code of (0, √B).  dstuPointCompress refuses exactly this point (docs/C16.fix-5.diff);
+every other point of the curve with tr(x) = A round-trips, and the compressed code is injective. -/
 
-theorem recover_compress (C : Dstu G F) (L : FLaws C.f) (x y : F)
+/-- ERR_BAD_POINT on an encoded pair ⇔ it is (1, y) with tr(y) = 0 -/
+theorem compress_refuses_iff (C : Dstu G F) (L : FLaws C.f) (x y : F) :
+    C.compress (C.encXY (x, y)) = (.badPoint, []) ↔ x = 1 ∧ C.f.tr y = false :=
+  Fld.compress_bad_iff C L x y
+
+/-- MAIN -/
+theorem recover_compress (C : Dstu G F) (L : FLaws C.f) (x y : F) {xp : Bytes}
+    (hcomp : C.compress (C.encXY (x, y)) = (.ok, xp))
     (hc : y * y + x * y = x * x * x + (if C.A then x * x else 0) + C.B)
-    (htr : x = 0 ∨ C.f.tr x = C.A)
-    (hx1 : x = 1 → C.f.tr y = true) :
-    ∃ xp, C.compress (C.encXY (x, y)) = (.ok, xp) ∧ xp.length = C.no ∧
-      C.recover xp = (.ok, C.encXY (x, y)) := by
-  by_cases hx : x = 0
-  · subst hx
-    refine ⟨_, Fld.compress_zero C L y, Pf.zeros_length _, ?_⟩
-    rw [Fld.recover_zero C L (Fld.decode_zeros C L _)]
-    have hB : C.B = y * y := by
-      have : y * y = C.B := by
-        rw [← sub_eq_zero]
-        have h := hc
-        simp only [zero_mul, mul_zero, ite_self, add_zero, zero_add] at h
-        linear_combination h
-      exact this.symm
-    rw [hB, Fld.sqrtF_mul_self L]
-  · have ht : C.f.tr x = C.A := htr.resolve_left hx
-    have hx1' : x = 1 → C.f.tr (y / x) = true := by
-      intro h1; rw [h1, div_one]; exact hx1 h1
-    obtain ⟨hs0, hslow, hsclr⟩ := Fld.stored_props C L hx (C.f.tr (y / x)) hx1'
-    refine ⟨_, Fld.compress_nz C L hx y, Fld.encF_length C _, ?_⟩
-    rw [Fld.recover_nz C L (Fld.decode_encF C L _) hs0, Fld.xfix_clearLow C L ht hsclr, hslow]
-    obtain ⟨z, hz, hzw⟩ := Fld.qsolve_one L (Fld.curve_w C hx hc)
-    rw [hz]
-    simp only
-    have hy : Fld.ysel C x z (C.f.tr (y / x)) = y := by
-      unfold Fld.ysel
-      have hxx : x * (y / x) = y := by field_simp
-      rcases hzw with e | e
-      · rw [e, beq_self_eq_true, if_pos rfl]
-        exact hxx
-      · rw [e, Fld.tr_add_one L]
-        have : ((!C.f.tr (y / x)) == C.f.tr (y / x)) = false := by cases C.f.tr (y / x) <;> rfl
-        rw [this]
-        simp only [Bool.false_eq_true, if_false]
-        linear_combination hxx + L.char2 x
-    rw [hy]
+    (htr : x = 0 ∨ C.f.tr x = C.A) :
+    xp.length = C.no ∧ C.recover xp = (.ok, C.encXY (x, y)) := by
+  have hx1 : x = 1 → C.f.tr y = true := by
+    intro h1
+    cases hy : C.f.tr y
+    · rw [(Fld.compress_bad_iff C L x y).2 ⟨h1, hy⟩] at hcomp; cases hcomp
+    · rfl
+  obtain ⟨xp', h1, h2, h3⟩ := Fld.recover_compress_aux C L x y hc htr hx1
+  rw [hcomp] at h1
+  simp only [Prod.mk.injEq, true_and] at h1
+  subst h1
+  exact ⟨h2, h3⟩
 
+/-- the same as one statement: refused (exactly the point without a code) or round-trip -/
+theorem recover_compress_total (C : Dstu G F) (L : FLaws C.f) (x y : F)
+    (hc : y * y + x * y = x * x * x + (if C.A then x * x else 0) + C.B)
+    (htr : x = 0 ∨ C.f.tr x = C.A) :
+    (x = 1 ∧ C.f.tr y = false ∧ C.compress (C.encXY (x, y)) = (.badPoint, [])) ∨
+    (∃ xp, C.compress (C.encXY (x, y)) = (.ok, xp) ∧ xp.length = C.no ∧
+      C.recover xp = (.ok, C.encXY (x, y))) := by
+  by_cases h : x = 1 ∧ C.f.tr y = false
+  · exact Or.inl ⟨h.1, h.2, (Fld.compress_bad_iff C L x y).2 h⟩
+  · right
+    refine Fld.recover_compress_aux C L x y hc htr ?_
+    intro h1
+    cases hy : C.f.tr y
+    · exact absurd ⟨h1, hy⟩ h
+    · rfl
+
+/-- no refusal at all on curves with A = 0 … -/
 theorem recover_compress_A0 (C : Dstu G F) (L : FLaws C.f) (x y : F) (hA : C.A = false)
     (hc : y * y + x * y = x * x * x + (if C.A then x * x else 0) + C.B)
     (htr : x = 0 ∨ C.f.tr x = C.A) :
     ∃ xp, C.compress (C.encXY (x, y)) = (.ok, xp) ∧ xp.length = C.no ∧
       C.recover xp = (.ok, C.encXY (x, y)) := by
-  refine recover_compress C L x y hc htr ?_
+  refine Fld.recover_compress_aux C L x y hc htr ?_
   intro h1
   rcases htr with h0 | h
   · rw [h0] at h1; exact absurd h1 zero_ne_one
   · rw [h1, Fld.tr_one L, hA] at h; cases h
 
+/-- … and on curves with tr(B) = 1 -/
 theorem recover_compress_trB (C : Dstu G F) (L : FLaws C.f) (x y : F) (hB : C.f.tr C.B = true)
     (hc : y * y + x * y = x * x * x + (if C.A then x * x else 0) + C.B)
     (htr : x = 0 ∨ C.f.tr x = C.A) :
     ∃ xp, C.compress (C.encXY (x, y)) = (.ok, xp) ∧ xp.length = C.no ∧
       C.recover xp = (.ok, C.encXY (x, y)) := by
-  refine recover_compress C L x y hc htr ?_
+  refine Fld.recover_compress_aux C L x y hc htr ?_
   intro h1
   rcases htr with h0 | h
   · rw [h0] at h1; exact absurd h1 zero_ne_one
@@ -143,16 +141,21 @@ theorem recover_compress_trB (C : Dstu G F) (L : FLaws C.f) (x y : F) (hB : C.f.
     rw [this, Fld.tr_sq_add_self L] at hB
     cases hB
 
-/-- the point (1, y) with tr(y) = 0 and the point (0, √B) have the same compressed form, and Recover
-returns the latter -/
-theorem compress_one_collision (C : Dstu G F) (L : FLaws C.f) (y : F) (hy : C.f.tr y = false) :
-    C.compress (C.encXY (1, y)) = (.ok, zeros C.no) ∧
-    C.compress (C.encXY (0, C.f.sqrtF C.B)) = (.ok, zeros C.no) ∧
-    C.recover (zeros C.no) = (.ok, C.encXY (0, C.f.sqrtF C.B)) := by
-  refine ⟨?_, Fld.compress_zero C L _, Fld.recover_zero C L (Fld.decode_zeros C L _)⟩
-  rw [Fld.compress_nz C L one_ne_zero, div_one, hy, Fld.clearLow_true L (Fld.low_one L), L.char2]
-  simp only [Bool.false_eq_true, if_false]
-  rw [Fld.encF_zero C L]
+/-- the collision is gone: two points of the curve with tr(x) = A (or x = 0) that Compress accepts
+with the same code are equal -/
+theorem compress_injective (C : Dstu G F) (L : FLaws C.f) (x₁ y₁ x₂ y₂ : F) {xp : Bytes}
+    (hc₁ : y₁ * y₁ + x₁ * y₁ = x₁ * x₁ * x₁ + (if C.A then x₁ * x₁ else 0) + C.B)
+    (hc₂ : y₂ * y₂ + x₂ * y₂ = x₂ * x₂ * x₂ + (if C.A then x₂ * x₂ else 0) + C.B)
+    (ht₁ : x₁ = 0 ∨ C.f.tr x₁ = C.A) (ht₂ : x₂ = 0 ∨ C.f.tr x₂ = C.A)
+    (h₁ : C.compress (C.encXY (x₁, y₁)) = (.ok, xp))
+    (h₂ : C.compress (C.encXY (x₂, y₂)) = (.ok, xp)) :
+    x₁ = x₂ ∧ y₁ = y₂ := by
+  have r₁ := (recover_compress C L x₁ y₁ h₁ hc₁ ht₁).2
+  have r₂ := (recover_compress C L x₂ y₂ h₂ hc₂ ht₂).2
+  rw [r₁] at r₂
+  simp only [Prod.mk.injEq, true_and] at r₂
+  have := Fld.encXY_inj C L r₂
+  exact ⟨congrArg Prod.fst this, congrArg Prod.snd this⟩
 
 /-! ### 7. Recover returns points of the curve only -/
 
@@ -202,21 +205,23 @@ theorem recover_sound (C : Dstu G F) (L : FLaws C.f) {xp pt : Bytes}
 example : FLaws Fld.toyF2 := Fld.toyF2_laws
 example : FLaws Fld.gf8Ops := Fld.gf8_laws
 
-/-- GF(2), curve y² + xy = x³ + x²: the hypotheses of `recover_compress` hold for (1, 1) … -/
+/-- GF(2), curve y² + xy = x³ + x²: the hypotheses of `recover_compress_total` hold for (1, 1) … -/
 example : ∃ xp, Fld.toyDstu.compress (Fld.toyDstu.encXY (1, 1)) = (.ok, xp) ∧
     xp.length = Fld.toyDstu.no ∧ Fld.toyDstu.recover xp = (.ok, Fld.toyDstu.encXY (1, 1)) :=
-  recover_compress Fld.toyDstu Fld.toyF2_laws 1 1 (by decide) (Or.inr (by decide)) (fun _ => by decide)
+  (recover_compress_total Fld.toyDstu Fld.toyF2_laws 1 1 (by decide) (Or.inr (by decide))).resolve_left
+    (fun h => absurd h.2.1 (by decide))
 
 /-- … and for (0, 0) (branch x = 0) -/
 example : ∃ xp, Fld.toyDstu.compress (Fld.toyDstu.encXY (0, 0)) = (.ok, xp) ∧
     xp.length = Fld.toyDstu.no ∧ Fld.toyDstu.recover xp = (.ok, Fld.toyDstu.encXY (0, 0)) :=
-  recover_compress Fld.toyDstu Fld.toyF2_laws 0 0 (by decide) (Or.inl rfl) (fun h => by cases h)
+  (recover_compress_total Fld.toyDstu Fld.toyF2_laws 0 0 (by decide) (Or.inl rfl)).resolve_left
+    (fun h => absurd h.1 (by decide))
 
-/-- GF(8), curve y² + xy = x³ + x² + 1: the hypotheses hold for the point (5, 5) of order 7 -/
-example : ∃ xp, Fld.gf8Dstu.compress (Fld.gf8Dstu.encXY (⟨5⟩, ⟨5⟩)) = (.ok, xp) ∧
-    xp.length = Fld.gf8Dstu.no ∧ Fld.gf8Dstu.recover xp = (.ok, Fld.gf8Dstu.encXY (⟨5⟩, ⟨5⟩)) :=
-  recover_compress Fld.gf8Dstu Fld.gf8_laws ⟨5⟩ ⟨5⟩ (by decide +kernel) (Or.inr (by decide +kernel))
-    (fun h => by revert h; decide +kernel)
+/-- GF(8), curve y² + xy = x³ + x² + 1: `recover_compress` applied to the point (5, 5) of order 7 -/
+example : ([5] : Bytes).length = Fld.gf8Dstu.no ∧
+    Fld.gf8Dstu.recover [5] = (.ok, Fld.gf8Dstu.encXY (⟨5⟩, ⟨5⟩)) :=
+  recover_compress Fld.gf8Dstu Fld.gf8_laws ⟨5⟩ ⟨5⟩ (xp := [5]) (by decide +kernel)
+    (by decide +kernel) (Or.inr (by decide +kernel))
 
 /-- the same run evaluated: both points with x = 5 round-trip through codes 05 and 04 -/
 example : Fld.gf8Dstu.compress (Fld.gf8Dstu.encXY (⟨5⟩, ⟨5⟩)) = (.ok, [5]) ∧
@@ -225,11 +230,15 @@ example : Fld.gf8Dstu.compress (Fld.gf8Dstu.encXY (⟨5⟩, ⟨5⟩)) = (.ok, [5
     Fld.gf8Dstu.recover [4] = (.ok, Fld.gf8Dstu.encXY (⟨5⟩, ⟨0⟩)) := by
   decide +kernel
 
-/-- the excluded corner evaluated on y² + xy = x³ + x² + x over GF(8): the point (1, 4) is on the
-curve, tr(x) = 1 = A, yet Compress gives 00 and Recover 00 gives (0, √B) = (0, 6) -/
+/-- the corner evaluated on y² + xy = x³ + x² + x over GF(8) (A = 1, tr(B) = 0): the point (1, 4) is
+on the curve, tr(x) = 1 = A, tr(y) = 0: Compress refuses it; (1, 5) is stored as 01 and comes back;
+the code 00 belongs to (0, √B) = (0, 6) alone -/
 example : (⟨4⟩ : Fld.GF8) * ⟨4⟩ + 1 * ⟨4⟩ = 1 * 1 * 1 + 1 * 1 + Fld.gf8DstuB2.B ∧
     Fld.gf8DstuB2.f.tr 1 = Fld.gf8DstuB2.A ∧
-    Fld.gf8DstuB2.compress (Fld.gf8DstuB2.encXY (1, ⟨4⟩)) = (.ok, [0]) ∧
+    Fld.gf8DstuB2.compress (Fld.gf8DstuB2.encXY (1, ⟨4⟩)) = (.badPoint, []) ∧
+    Fld.gf8DstuB2.compress (Fld.gf8DstuB2.encXY (1, ⟨5⟩)) = (.ok, [1]) ∧
+    Fld.gf8DstuB2.recover [1] = (.ok, Fld.gf8DstuB2.encXY (1, ⟨5⟩)) ∧
+    Fld.gf8DstuB2.compress (Fld.gf8DstuB2.encXY (0, ⟨6⟩)) = (.ok, [0]) ∧
     Fld.gf8DstuB2.recover [0] = (.ok, Fld.gf8DstuB2.encXY (0, ⟨6⟩)) := by
   decide +kernel
 
